@@ -198,14 +198,20 @@ func oracleClient(st *step) *verdict {
 			}
 			return nil
 		}
+		// the backend's answer for this set: every requested digest (told apart by digest
+		// function and instance name) whose object it does not hold
 		var want []string
 		seen := map[string]bool{}
 		for _, s := range secs[1:] {
-			k := key(s[0], sizeOf(s[1]))
-			if _, ok := st.casBefore[k]; !ok && !seen[k] {
-				want = append(want, k)
+			tag, hash, size, err := cfmEntry(s)
+			if err != nil {
+				return nil
 			}
-			seen[k] = true
+			k := key(hash, sizeOf(size))
+			if _, ok := st.casBefore[k]; !ok && !seen[tag+"/"+k] {
+				want = append(want, tag+"/"+k)
+			}
+			seen[tag+"/"+k] = true
 		}
 		if !strings.HasPrefix(st.reply, "ok") || !sameSet(want, strings.Fields(st.reply)[1:]) {
 			return &verdict{whatClient, fmt.Sprintf("FindMissing: want %v, reply %q", want, st.reply)}
